@@ -290,6 +290,9 @@ pub struct Trace {
     pub last_states: u32,
     pub stopped: bool,
     pub gave_up: bool,
+    /// every message of the real run with the state count before / after the iteration that emitted it
+    pub stamped: Vec<(String, u64, u64)>,
+    pub sum_at_last_tick: u64,
 }
 
 pub struct RunResult {
@@ -323,6 +326,12 @@ pub fn traced_run(elf_path: &str, args: &str, with_twin: bool, max_ticks: u64) -
 /// carries no information; the properties allow such repetitions (C16) and do not require them, so
 /// they are removed from both streams before the sequences are compared.
 pub fn drop_redundant_port_messages(msgs: &[String]) -> Vec<String> {
+    pinned_messages(msgs, false)
+}
+
+/// ... optionally without the stamps of the port messages (they are checked on their own against the
+/// state count of the iteration that emitted them)
+pub fn pinned_messages(msgs: &[String], strip_stamps: bool) -> Vec<String> {
     let mut last = [0u32; 16];
     let mut out = vec![];
     for m in msgs {
@@ -335,6 +344,10 @@ pub fn drop_redundant_port_messages(msgs: &[String]) -> Vec<String> {
                             continue;
                         }
                         last[p] = v;
+                    }
+                    if strip_stamps {
+                        out.push(format!("ioport:{}:{}", f[0], f[1]));
+                        continue;
                     }
                 }
             }
@@ -378,6 +391,7 @@ pub fn traced_run_from(elf_path: &str, args: &str, with_twin: bool, max_ticks: u
     };
     let tr = trace.clone();
     let tw = twin_rig.clone();
+    let rx = rig.from_emu.clone();
     let tick = Box::new(move |cpu: &mut Cpu| {
         let mut t = tr.borrow_mut();
         t.ticks += 1;
@@ -399,6 +413,15 @@ pub fn traced_run_from(elf_path: &str, args: &str, with_twin: bool, max_ticks: u
             let _ = stop_tx.send("cmd:stop".to_string());
             return;
         }
+        {
+            // messages emitted since the previous tick belong to the iteration in between
+            let now = cpu.verif_state_sum() as u64;
+            let before = if t.ticks <= 1 { now } else { t.sum_at_last_tick };
+            for m in rx.try_iter() {
+                t.stamped.push((m, before, now));
+            }
+            t.sum_at_last_tick = now;
+        }
         let Some(tw) = &tw else { return };
         let mut twin = tw.borrow_mut();
         let sum = cpu.verif_state_sum() as u64;
@@ -419,9 +442,8 @@ pub fn traced_run_from(elf_path: &str, args: &str, with_twin: bool, max_ticks: u
                 let n = t.ticks;
                 t.findings.push(("accounting.state-sum".into(), format!("iteration {}: instruction returned {} states (x{}), state count advanced by {}", n - 1, s, k, delta)));
             }
-            if cpu.bus.cpu_state_sum as u64 != sum {
-                t.findings.push(("accounting.bus-clock".into(), format!("state count {} but the bus/peripheral time stamp base is {}", sum, cpu.bus.cpu_state_sum)));
-            }
+            // (which field carries the time base of the port stamps is the emulator's business: the
+            // stamps themselves are checked against the state count below)
             // sync message expected?
             let before = t.sum;
             if (sum - start) / SYNC_INTERVAL > (before - start) / SYNC_INTERVAL {
@@ -504,8 +526,15 @@ pub fn traced_run_from(elf_path: &str, args: &str, with_twin: bool, max_ticks: u
         rig.cpu.verif_set_state_sum(start as usize);
     }
     let end = run_with_hook(&mut rig.cpu, tick);
-    let msgs = rig.drain();
     let mut t = trace.borrow_mut();
+    {
+        let now = rig.cpu.verif_state_sum() as u64;
+        let before = t.sum_at_last_tick;
+        for m in rig.drain() {
+            t.stamped.push((m, before, now));
+        }
+    }
+    let msgs: Vec<String> = t.stamped.iter().map(|x| x.0.clone()).collect();
     let mut findings = std::mem::take(&mut t.findings);
     if with_twin && !t.stopped {
         // final accounting for the last instruction and the end condition
@@ -545,9 +574,8 @@ pub fn traced_run_from(elf_path: &str, args: &str, with_twin: bool, max_ticks: u
         // one time base, independent of the twin: every stamp the run emits (ioport:<p>:<v>:<stamp>,
         // sync:<total>) lies between the starting and the final state count and never decreases
         {
-            let end_sum = rig.cpu.verif_state_sum() as u64;
             let mut last = start;
-            for m in &msgs {
+            for (m, lo, hi) in &t.stamped {
                 let stamp = if let Some(x) = m.strip_prefix("sync:") {
                     x.parse::<u64>().ok()
                 } else if m.starts_with("ioport:") {
@@ -555,16 +583,18 @@ pub fn traced_run_from(elf_path: &str, args: &str, with_twin: bool, max_ticks: u
                 } else {
                     continue;
                 };
+                // messages before the first instruction carry the starting count
+                let lo = (*lo).min(*hi);
                 match stamp {
-                    Some(s) if s >= last && s <= end_sum => last = s,
+                    Some(s) if s >= last && s >= lo && s <= *hi => last = s,
                     _ => {
-                        findings.push(("time-base".into(), format!("message {:?}: stamp outside [{} (previous stamp / start), {} (final state count)]", m, last, end_sum)));
+                        findings.push(("time-base".into(), format!("message {:?}: stamp outside [{}, {}] (state count before / after the loop iteration that emitted it; previous stamp {})", m, lo, hi, last)));
                         break;
                     }
                 }
             }
         }
-        let (msgs_n, expected_n) = (drop_redundant_port_messages(&msgs), drop_redundant_port_messages(&t.expected_msgs));
+        let (msgs_n, expected_n) = (pinned_messages(&msgs, true), pinned_messages(&t.expected_msgs, true));
         let (msgs_c, expected_c) = (&msgs_n, &expected_n);
         if msgs_c != expected_c {
             let (msgs, expected_msgs) = (msgs_c, expected_c);
